@@ -384,6 +384,38 @@ func checkC06(c *hx.Ctx) {
 			if i%16 == 0 {
 				spelling = rfc3339In(T, hx.Pick(r, []int{300, -300, 330}))
 			}
+			// the second just before an operation's, spelled with a fraction (seeded C06-19: a front end that rounds instead of
+			// flooring lets the operation anchored in the next second through); the instant is still before that operation
+			for k, o := range pubOnly {
+				if k >= 4 {
+					break
+				}
+				Tf := o.Time - 1
+				var truncF []*ref.Op
+				for _, q := range pubOnly {
+					if q.Time <= Tf {
+						truncF = append(truncF, q)
+					}
+				}
+				c.Eval()
+				frac := []int64{500000000, 750000000, 999999999, 100000000}[(i/8+k)%4]
+				sp := time.Unix(int64(Tf), frac).UTC().Format(time.RFC3339Nano)
+				codeF, bodyF := restResolve(pc, u.Suffix, pubOnly, "?versionTime="+url.QueryEscape(sp))
+				if len(truncF) == 0 {
+					if codeF == 200 {
+						c.Violation(fmt.Sprintf("C06 REST versionTime=%s (before the first operation) returned 200: [%s]", sp, histString(pubOnly)), map[string]interface{}{"history": replayOps(pubOnly), "versionTime": sp})
+						return
+					}
+				} else {
+					codeT, bodyT := restResolve(pc, u.Suffix, truncF, "")
+					if codeF != codeT || (codeF == 200 && bodyF != bodyT) {
+						c.Violation(fmt.Sprintf("C06 REST resolve with versionTime=%s differs from REST resolve of the history truncated at %d: [%s]\n   filtered:  %d %s\n   truncated: %d %s", sp, Tf, histString(pubOnly), codeF, bodyF, codeT, bodyT),
+							map[string]interface{}{"history": replayOps(pubOnly), "versionTime": sp})
+						return
+					}
+				}
+				c.Count("rest_comparisons_fractional_seconds")
+			}
 			codeF, bodyF := restResolve(pc, u.Suffix, pubOnly, "?versionTime="+url.QueryEscape(spelling))
 			if len(trunc) == 0 {
 				if codeF == 200 {
